@@ -244,7 +244,8 @@ where
                     .await
                     .map_err(ManagerError::IdentityManager)?;
 
-                (None, None, vec![event])
+                // No event if we already knew this key bundle.
+                (None, None, event.into_iter().collect())
             }
             SpacesArgs::Auth { group_action, .. } => {
                 // Promoting or demoting members is not supported yet, reject such messages instead
